@@ -88,7 +88,9 @@ func propC04(c *ctx) error {
 	headers := []struct {
 		hdr        string // with %s for the object
 		idx, item  string
-	}{{"%s", "", ""}, {"i : %s", "i", ""}, {"i, x : %s", "i", "x"}, {", x : %s", "", "x"}, {"_, x : %s", "_", "x"}, {"  i ,x:%s  ", "i", "x"}, {"i, x : (%s)", "i", "x"}, {"i, x : w.%s", "i", "x"}}
+	}{{"%s", "", ""}, {"i : %s", "i", ""}, {"i, x : %s", "i", "x"}, {", x : %s", "", "x"}, {"_, x : %s", "_", "x"}, {"  i ,x:%s  ", "i", "x"}, {"i, x : (%s)", "i", "x"}, {"i, x : w.%s", "i", "x"},
+		// loop variables are identifiers of the expression language: letters of any alphabet
+		{"序, 项 : %s", "序", "项"}, {"i, élément : %s", "i", "élément"}, {"ключ : %s", "ключ", ""}, {"_, ñ : %s", "_", "ñ"}}
 	following := []struct{ sib, sep string }{{"", ""}, {" ", " "}, {"\n  ", "\n  "}, {"<b>n</b>", ""}, {"txt", ""}, {" <b>n</b>", " "}, {"<!-- c -->", ""},
 		// blank text is blank in the Unicode sense
 		{"\u3000", "\u3000"}, {"\f", "\f"}, {"\u00a0\n", "\u00a0\n"}, {"\v ", "\v "}, {"\u0085", "\u0085"}, {"\u2028<b>n</b>", "\u2028"}}
